@@ -808,7 +808,14 @@ func (i *IRCServer) generateCaptchaURL(s *Session, purpose string) string {
 		base64.StdEncoding.EncodeToString(mac.Sum(nil)),
 	}, ".")
 
-	u, _ := url.Parse(i.Config.CaptchaURL)
+	u, err := url.Parse(i.Config.CaptchaURL)
+	if err != nil {
+		// The configuration is only checked for being valid TOML, so
+		// CaptchaURL might not be a URL at all. Do not crash (the whole
+		// network would); the resulting relative URL is useless, but the
+		// invalid string is not relayed either.
+		u = &url.URL{}
+	}
 	if u.Path == "" {
 		u.Path = "/"
 	}
